@@ -354,7 +354,7 @@ class Hist:
                     del e.fixup[rng.choice(('a', 'b', 'c', 'dd'))]
                 else:
                     names = rng.sample(['a', 'b', 'c', 'd', 'e', 'f'], rng.randint(2, 6))
-                    e2 = Entity(vmf, keys={'classname': 'func_instance'}, fixup=[FixupValue(v, 'x', rng.choice((1, 1, 2, 2, 3, 4, 7, 99))) for v in names])
+                    e2 = Entity(vmf, keys={'classname': 'func_instance'}, fixup=[FixupValue(v, 'x', rng.choice((1, 1, 2, 2, 3, 4, 7, 99, 0, 0, -1, 100))) for v in names])
                     vmf.add_ent(e2)
                     e2.fixup['new'] = '1'
                 self.log.append(f'{op} map{mi} ent={e.id}')
@@ -380,7 +380,7 @@ class Hist:
                     doc += 'hidden\n{\nsolid\n{\n"id" "%s"\nside\n{\n"id" "%s"\n"plane" "(0 0 0) (1 0 0) (0 1 0)"\n}\neditor\n{\n"groupid" "4"\n"visgroupid" "3"\n}\n}\n}\n' % (ids[1], ids[3])
                 doc += 'group\n{\n"id" "4"\n}\ngroup\n{\n"id" "4"\n}\n}\n'
                 for k in range(3):
-                    doc += 'entity\n{\n"id" "%s"\n"classname" "info_node"\n"nodeid" "%s"\n"replace01" "$a 1"\n"replace01" "$b 2"\n}\n' % (ids[k], rng.choice((1, 1, 2)))
+                    doc += 'entity\n{\n"id" "%s"\n"classname" "info_node"\n"nodeid" "%s"\n"replace01" "$a 1"\n"replace01" "$b 2"\n"replace%s" "$c 3"\n}\n' % (ids[k], rng.choice((1, 1, 2)), rng.choice(('00', '00', '-1', '02', '100')))
                 if rng.random() < 0.6:  # a brush entity (visible or hidden) whose brush and face IDs collide with the world's
                     ent = ('entity\n{\n"id" "%s"\n"classname" "func_detail"\n'
                            'solid\n{\n"id" "%s"\nside\n{\n"id" "%s"\n"plane" "(0 0 0) (1 0 0) (0 1 0)"\n}\n}\n'
